@@ -65,7 +65,13 @@ Faulty(e) == /\ Enabled(St, e.ev) \/ e.ev = "d_forget"
                 THEN /\ phase' = "live"
                      /\ grid' = FromFlat(e.post.nc, e.post.nr, IF e.valued THEN e.post.data ELSE [i \in 1..e.post.len |-> 0])
                 ELSE /\ phase' = (IF phase = "none" THEN "none" ELSE "gone") /\ grid' = << >>
-             /\ handle' = NoHandle /\ held' = held
+             /\ handle' = NoHandle
+             \* what the caller holds: what it held, plus (a fold closure that panicked midway) items of the drained line
+             /\ IF e.valued
+                THEN /\ Len(e.held) >= Len(held) /\ SubSeq(e.held, 1, Len(held)) = held
+                     /\ \A i \in (Len(held) + 1)..Len(e.held) : e.held[i] \in Range(Before)
+                     /\ held' = e.held
+                ELSE held' = held
              /\ faulted' = TRUE
 
 Step == /\ l <= Len(Rec)
